@@ -31,7 +31,7 @@ RULE = (
 )
 ASSUMPTIONS = [
     "empty check-ins are part of the histories but their own dispatch is not judged (the statement speaks of tasks received)",
-    "command ids are members of the closed BeaconCommand enum; id 6 (NOOP alias) is not scripted because the real get_task filters it",
+    "command ids are any 32-bit id the wire format can carry (known and unknown to the client); id 6 (NOOP alias) is not scripted because the real get_task filters it",
     "handlers are driven through the real loop body with get_task / send_callback / time.sleep replaced by recorders (no network)",
 ]
 REQUIRED_MONITORS = ["identity.id", "identity.keys", "metadata.fits", "sleep.band", "dispatch.exactly_once", "client.get_handlers.pure"]
@@ -183,7 +183,7 @@ def check_dispatch(case, ctx):
         return h
 
     methods = {}
-    for cmd in case["methods"]:
+    for cmd in [m for m in case["methods"] if m not in UNKNOWN_COMMANDS]:
         name = "on_" + ("empty_task" if cmd is None else BeaconCommand(cmd).name.replace("COMMAND_", "").lower())
         methods[name] = (lambda lab, beh: (lambda self, task: mk(lab, beh)(task)))(f"method:{cmd}", "none")
     if case["on_catch_all"]:
@@ -196,7 +196,14 @@ def check_dispatch(case, ctx):
     for n, (how, cmd, beh) in enumerate(case["registrations"]):
         label = f"{how}#{n}:{cmd}"
         if how == "decorator":
-            c.handle(BeaconCommand(cmd) if cmd is not None and n % 2 else cmd)(mk(label, beh))
+            # the command may be given as int, as the exported IntEnum, or as the enum type that task.command carries
+            if cmd is None or n % 3 == 0 or cmd in UNKNOWN_COMMANDS:
+                arg = cmd
+            elif n % 3 == 1:
+                arg = BeaconCommand(cmd)
+            else:
+                arg = TaskPacket().command.__class__(cmd)
+            c.handle(arg)(mk(label, beh))
             registered[cmd].append(label)
         elif how == "register":
             c.register_task(cmd, mk(label, beh))
@@ -211,7 +218,7 @@ def check_dispatch(case, ctx):
         else:
             t = TaskPacket()
             t.epoch = 1
-            t.command = BeaconCommand(cmd)
+            t.command = t.command.__class__(cmd)  # the wire enum accepts any 32-bit id, newer servers send ids the client does not know
             t.data = b"x"
             t.size = 1
             t.total_size = 9
@@ -253,7 +260,7 @@ def check_dispatch(case, ctx):
             continue
         ctx.monitors["dispatch.exactly_once"] += 1
         want = list(registered.get(cmd, []))
-        if cmd in case["methods"]:
+        if cmd in case["methods"] and cmd not in UNKNOWN_COMMANDS:
             want.append(f"method:{cmd}")
         if not want:
             want = list(registered.get(-1, []))
@@ -300,6 +307,7 @@ def check_case(case, ctx):
 
 
 COMMANDS = [1, 2, 3, 4, 5, 8, 9, 10, 11, 12, 27, 32, 33, 39, 40, 53, 77, 100, 102]
+UNKNOWN_COMMANDS = [0, 20, 48, 103, 104, 200, 65535]  # ids outside the client's command table
 
 
 def gen_names(rng):
@@ -354,6 +362,8 @@ def run_shard(shard, ctx):
             if ctx.out_of_time():
                 break
             cmds = rng.sample(COMMANDS, rng.randrange(1, 7))
+            if rng.random() < 0.3:
+                cmds += rng.sample(UNKNOWN_COMMANDS, rng.randrange(1, 3))
             regs = []
             for _ in range(rng.randrange(0, 8)):
                 how = rng.choice(["decorator", "decorator", "register", "catch_all"])
@@ -363,7 +373,7 @@ def run_shard(shard, ctx):
             if rng.random() < 0.15:
                 methods.append(None)
             n = rng.choice([1, 2, 5, 20, 60, rng.randrange(1, 201)])
-            pool = cmds + [rng.choice(COMMANDS)]
+            pool = cmds + [rng.choice(COMMANDS + UNKNOWN_COMMANDS)]
             hist = [None if rng.random() < 0.12 else rng.choice(pool) for _ in range(n)]
             check_case({"op": "dispatch", "registrations": regs, "methods": methods, "on_catch_all": rng.random() < 0.4, "history": hist,
                         "sleeptime": rng.choice([0, 100, 60000]), "jitter": rng.choice([0, 10, 99]), "seed": rng.getrandbits(32)}, ctx)
